@@ -1,5 +1,6 @@
 mod handle;
 mod names;
+mod timeconv;
 mod util;
 
 use util::*;
@@ -30,6 +31,24 @@ fn main() {
             };
             for v in &violations {
                 println!("ORACLE {}", v);
+            }
+        }
+        "time" => {
+            let ops = arg(&args, "--ops").unwrap();
+            let imp = arg(&args, "--impl").unwrap();
+            if let Some(r) = arg(&args, "--replay") {
+                if r != ops {
+                    std::fs::copy(r, ops).ok();
+                }
+                timeconv::replay(ops, imp);
+            } else {
+                let (hist, v) = timeconv::campaign(arg_u64(&args, "--seed", 1), arg_u64(&args, "--count", 1000), ops, imp);
+                for (k, n) in &hist {
+                    println!("HIST {} {}", k, n);
+                }
+                for x in &v {
+                    println!("ORACLE {}", x);
+                }
             }
         }
         "upper-dump" => names::upper_dump(arg(&args, "--out").unwrap()),
